@@ -103,17 +103,19 @@ def _judge_html(html, base_skel, where, text, case, what):
                         msg="%s: element structure differs from the benign report at node %d: %r vs %r" % (what, i, sk[i:i + 2], base_skel[i:i + 2])))
         return out
     cls, style_t = where
-    if cls:
-        got = html_tree.texts_by_class(evs).get(cls, [])
-        if text.strip() and not any(g == text or g.strip() == text.strip() for g in got):
-            out.append(dict(sig="report/text_not_verbatim", case=case, observed=got[:4], expected=text,
-                            msg="%s: the text is not displayed verbatim in .%s (shown: %r)" % (what, cls, got[:3])))
-    if style_t:
-        styles = html_tree.attrs_by_class(evs, "style").get("color-box", [])
-        want = style_t % text
-        if not any(want in s for s in styles):
-            out.append(dict(sig="report/style_value_not_verbatim", case=case, observed=styles[:2], expected=want,
-                            msg="%s: style attribute does not carry %r verbatim (styles: %r)" % (what, want, styles[:2])))
+    # class-agnostic: the text must be shown verbatim in *some* text node (slots displayed as text) and carried verbatim by
+    # *some* attribute value (slots that also reach a style attribute) - a renamed CSS class is not a violation
+    if cls and text.strip():
+        texts = [e[1] for e in evs if e[0] == "text"]
+        if not any(g == text or g.strip() == text.strip() for g in texts):
+            near = [g for g in texts if text.strip()[:3] and text.strip()[:3] in g][:3]
+            out.append(dict(sig="report/text_not_verbatim", case=case, observed=near, expected=text,
+                            msg="%s: the text is not displayed verbatim in any text node (closest: %r)" % (what, near)))
+    if style_t and text.strip():
+        vals = [v for e in evs if e[0] == "start" for _k, v in e[2] if v]
+        if not any(text in v for v in vals):
+            out.append(dict(sig="report/style_value_not_verbatim", case=case, observed=[v for v in vals if "color" in v][:2], expected=text,
+                            msg="%s: no attribute value carries the text verbatim" % what))
     return out
 
 
